@@ -1,5 +1,170 @@
-From GS Require Import Base.Bytes Model.GoPartial Model.Histogram Model.Stats Proofs.Stats.
+(* C08 - timer statistics and histograms are those of the received multiset.
 
-Theorem C08_placeholder : forall (l : list nat), l = l.
-Proof. exact (fun l => eq_refl). Qed.
-Print Assumptions C08_placeholder.
+   Vocabulary (Model/Stats.v, Model/Histogram.v):
+     flush_timer O pf rank legacy c t   the timer part of MetricAggregator.Flush, implementation-shaped: sort,
+                                the two cumulative arrays, the percentile loop with its loop-carried
+                                variables and the index arithmetic of aggregator.go, every index checked
+                                (out of range = Panic); [qc_ops] = exact rationals, [legacy = false] = /repo
+                                with the D3 repair;
+     fresh O xs s tags h        the timer Receive/Merge build: values xs in arrival order, sampled count s;
+     timer_spec rank pf c xs s tags h   the SPECIFICATION against the multiset xs: fold_right qmin / qmax,
+                                qsum, qsumsq, qmean = sum/n, qmedian (middle of the sorted list),
+                                qvariance = sum (x-mean)^2 / n, count = floor(s + 1/2), s / interval, and per
+                                percentile p [pct_spec]: count, mean, sum, sum of squares of [selected p xs]
+                                (the first k of the sorted list if p > 0, else the last k; k = 1 when n = 1,
+                                else k = rank p n; nothing when k = 0) and its greatest (p > 0) or least value;
+     rank p n                   int(round(|p|/100*n)) - ABSTRACT here: every theorem holds for every rank
+                                function that stays within 0..n (Go computes it in float64: [go_rank], checked
+                                to stay in range for n <= 1000 below; exact arithmetic: [exact_rank]);
+     pf                         strconv.ParseFloat on a bucket item (oracle: any function);
+     hist_spec / spec_bounds / count_le    buckets: the first [limit] items of the tag that parse; number of
+                                values not greater than a bound.
+   StdDev is stated as its square (math.Sqrt is not modelled). Float rounding is not modelled (Qc). *)
+From Coq Require Import List ZArith QArith Qcanon Permutation.
+From GS Require Import Base.Bytes Base.GoFloat Model.GoPartial Model.Histogram Model.Stats Proofs.Stats.
+Import ListNotations.
+Local Open Scope Z_scope.
+
+(* The implementation-shaped flush computes exactly the specification and does not panic: for
+   every list of values (n >= 0), percentile list, mask, interval, bucket limit, tags. *)
+Theorem C08_refines_spec :
+  forall (rank : Z -> Z -> Z) (pf : str -> option bound) (c : config Qc)
+         (xs : list Qc) (sampled : Qc) (tags : list str) (h : hist),
+    (forall p, In p (c_pcts c) -> 0 <= rank p (len xs) <= len xs) ->
+    0 <= c_limit c ->
+    (forall tag, In tag tags -> len tag < 2^32) ->
+    flush_timer qc_ops pf rank false c (fresh qc_ops xs sampled tags h)
+    = Ok (timer_spec rank pf c xs sampled tags h).
+Proof. exact flush_timer_refines_spec. Qed.
+Print Assumptions C08_refines_spec.
+
+(* ... in particular for the rank in exact arithmetic, floor(|p|*n/100 + 1/2), with no hypothesis
+   on the rank: integer percentiles with |p| <= 100 *)
+Theorem C08_refines_spec_exact_rank :
+  forall (pf : str -> option bound) (c : config Qc) (xs : list Qc) (sampled : Qc) (tags : list str) (h : hist),
+    (forall p, In p (c_pcts c) -> -100 <= p <= 100) ->
+    0 <= c_limit c ->
+    (forall tag, In tag tags -> len tag < 2^32) ->
+    flush_timer qc_ops pf exact_rank false c (fresh qc_ops xs sampled tags h)
+    = Ok (timer_spec exact_rank pf c xs sampled tags h).
+Proof. exact refines_spec_exact_rank. Qed.
+Print Assumptions C08_refines_spec_exact_rank.
+
+(* ... and for Go's float64 rank for every timer of at most 1000 values (the range of the rank is
+   checked by a finite sweep on the kernel's binary64 floats; C04 owns the unbounded statement) *)
+Theorem C08_refines_spec_go_rank_upto_1000 :
+  forall (pf : str -> option bound) (c : config Qc) (xs : list Qc) (sampled : Qc) (tags : list str) (h : hist),
+    (forall p, In p (c_pcts c) -> -100 <= p <= 100) ->
+    len xs <= 1000 ->
+    0 <= c_limit c ->
+    (forall tag, In tag tags -> len tag < 2^32) ->
+    flush_timer qc_ops pf go_rank false c (fresh qc_ops xs sampled tags h)
+    = Ok (timer_spec go_rank pf c xs sampled tags h).
+Proof. exact refines_spec_go_rank_1000. Qed.
+Print Assumptions C08_refines_spec_go_rank_upto_1000.
+
+(* The report depends on the multiset of values only.  A histogram timer keeps its values in
+   arrival order, so reports are compared with their values sorted ([sorted_values]); for a
+   plain timer the reports are equal as they are. *)
+Theorem C08_order_independent :
+  forall (rank : Z -> Z -> Z) (pf : str -> option bound) (c : config Qc)
+         (xs ys : list Qc) (sampled : Qc) (tags : list str) (h : hist),
+    Permutation xs ys ->
+    sorted_values (timer_spec rank pf c xs sampled tags h)
+    = sorted_values (timer_spec rank pf c ys sampled tags h)
+    /\ (has_histogram_tag tags = false ->
+        timer_spec rank pf c xs sampled tags h = timer_spec rank pf c ys sampled tags h).
+Proof. exact timer_spec_perm. Qed.
+Print Assumptions C08_order_independent.
+
+(* ... hence so does the implementation-shaped flush *)
+Theorem C08_flush_order_independent :
+  forall (rank : Z -> Z -> Z) (pf : str -> option bound) (c : config Qc)
+         (xs ys : list Qc) (sampled : Qc) (tags : list str) (h : hist),
+    (forall p, In p (c_pcts c) -> 0 <= rank p (len xs) <= len xs) ->
+    0 <= c_limit c ->
+    (forall tag, In tag tags -> len tag < 2^32) ->
+    Permutation xs ys -> has_histogram_tag tags = false ->
+    flush_timer qc_ops pf rank false c (fresh qc_ops xs sampled tags h)
+    = flush_timer qc_ops pf rank false c (fresh qc_ops ys sampled tags h).
+Proof. exact flush_order_independent. Qed.
+Print Assumptions C08_flush_order_independent.
+
+(* "The k lowest (p > 0) or k highest values" is meant literally: the values a percentile
+   aggregates are k of the received values, and each of them is <= (>=) every other value. *)
+Theorem C08_k_lowest :
+  forall (rank : Z -> Z -> Z) (p : Z) (xs : list Qc),
+    let n := length xs in
+    let k := if (n =? 1)%nat then 1%nat else Z.to_nat (rank p (Z.of_nat n)) in
+    (k <= n)%nat ->
+    exists rest,
+      Permutation xs (selected rank p xs ++ rest) /\ length (selected rank p xs) = k /\
+      forall a b, In a (selected rank p xs) -> In b rest -> if 0 <? p then (a <= b)%Qc else (b <= a)%Qc.
+Proof. exact selected_k_lowest. Qed.
+Print Assumptions C08_k_lowest.
+
+(* The deviation is the POPULATION deviation of the values around their mean: variance * n is the
+   sum of squared differences from the mean (not n - 1), mean * n is the sum, and equivalently
+   variance = sum of squares / n - mean^2. *)
+Theorem C08_stddev_is_population :
+  forall (rank : Z -> Z -> Z) (pf : str -> option bound) (c : config Qc)
+         (xs : list Qc) (sampled : Qc) (tags : list str) (h : hist),
+    (forall p, In p (c_pcts c) -> 0 <= rank p (len xs) <= len xs) ->
+    0 <= c_limit c ->
+    (forall tag, In tag tags -> len tag < 2^32) ->
+    xs <> [] -> has_histogram_tag tags = false ->
+    exists t, flush_timer qc_ops pf rank false c (fresh qc_ops xs sampled tags h) = Ok t /\
+      let n := qnat (length xs) in
+      (t_mean t * n = qsum xs /\
+       t_var t * n = qsum (map (fun x => (x - t_mean t) * (x - t_mean t)) xs) /\
+       t_var t = t_sumsq t / n - t_mean t * t_mean t)%Qc.
+Proof. exact stddev_is_population. Qed.
+Print Assumptions C08_stddev_is_population.
+
+(* A timer tagged gsd_histogram:... reports buckets and none of the summary statistics: nothing
+   at all for limit 0; otherwise +Inf with the number of all values and the first [limit] bounds
+   of the tag that parse, every bucket holding the number of values not greater than its bound,
+   and no other bucket.  (NaN bounds make entries that no lookup finds; they hold 0.) *)
+Theorem C08_histogram_spec :
+  forall (rank : Z -> Z -> Z) (pf : str -> option bound) (c : config Qc)
+         (xs : list Qc) (sampled : Qc) (tags : list str) (h : hist),
+    0 <= c_limit c ->
+    (forall tag, In tag tags -> len tag < 2^32) ->
+    has_histogram_tag tags = true ->
+    exists t, flush_timer qc_ops pf rank false c (fresh qc_ops xs sampled tags h) = Ok t /\
+      (t_count t = 0 /\ t_persec t = 0%Qc /\ t_mean t = 0%Qc /\ t_median t = 0%Qc /\ t_min t = 0%Qc /\
+       t_max t = 0%Qc /\ t_var t = 0%Qc /\ t_sum t = 0%Qc /\ t_sumsq t = 0%Qc /\ t_pcts t = [] /\
+       t_values t = xs /\ t_sampled t = sampled) /\
+      (c_limit c = 0 -> t_hist t = HMap []) /\
+      (0 < c_limit c ->
+       let bounds := spec_bounds pf tags (c_limit c) in
+       exists l, t_hist t = HMap l /\
+         (length l <= Z.to_nat (c_limit c) + 1)%nat /\
+         (forall b n, In (b, n) l -> n = count_le qc_le_bound b xs /\ (b = BPInf \/ In b bounds)) /\
+         hget BPInf l = Some (len xs) /\
+         (forall b, In b bounds -> b <> BNaN -> hget b l = Some (count_le qc_le_bound b xs))).
+Proof. exact histogram_spec. Qed.
+Print Assumptions C08_histogram_spec.
+
+(* Receiving datapoints (value, rate) in any order and flushing: the values are the received
+   ones, the sampled count is the sum of 1/rate whatever the order, Count = floor(S + 1/2),
+   PerSecond = S / interval; for unsampled datapoints Count is their number. *)
+Theorem C08_sampled_count :
+  forall (rank : Z -> Z -> Z) (pf : str -> option bound) (c : config Qc)
+         (pts : list (Qc * Qc)) (tags : list str) (h : hist),
+    let xs := fst (receive_all pts) in
+    let s := snd (receive_all pts) in
+    (forall p, In p (c_pcts c) -> 0 <= rank p (len xs) <= len xs) ->
+    0 <= c_limit c ->
+    (forall tag, In tag tags -> len tag < 2^32) ->
+    pts <> [] -> has_histogram_tag tags = false ->
+    xs = map fst pts /\
+    s = qsum (map (fun vr => / snd vr)%Qc pts) /\
+    (forall pts', Permutation pts pts' -> snd (receive_all pts') = s) /\
+    exists t, flush_timer qc_ops pf rank false c (fresh qc_ops xs s tags h) = Ok t /\
+      t_sampled t = s /\
+      t_count t = Qcfloor (s + qhalf) /\
+      t_persec t = (s / c_interval c)%Qc /\
+      ((forall vr, In vr pts -> snd vr = 1%Qc) -> t_count t = len pts).
+Proof. exact sampled_count_spec. Qed.
+Print Assumptions C08_sampled_count.
